@@ -22,8 +22,11 @@ def generate(tier):
     else:
         cfgs = lambda c: [0, 2, 5]  # noqa: E731
         timeout = 240
+    from props import ob_kernel
     return cell_obligations('C07', 'c07_obl', check_call, cells, cfgs,
-                            timeout)
+                            timeout) + ob_kernel.obligations(
+        ['kernel_translator_validation', 'kernel_single_can_hold',
+         'kernel_conv_integer', 'kernel_conv_long'])
 
 
 def run(tier):
